@@ -1,6 +1,7 @@
 (* Entry point of the extracted model for the correspondence check: one function from
    (function id, arguments) to the canonical observation string the Go harness records. *)
-From Wire Require Import Base.Bytes Model.Converters Model.Validators Spec.Faim.
+From Wire Require Import Base.Bytes Model.Converters Model.Validators Model.GoV Model.Codec Spec.Faim.
+From WireGen Require Import Tags Verify.
 
 Definition str (s : string) : bytes := list_byte_of_string s.
 
@@ -12,14 +13,168 @@ Fixpoint split_colon (s : bytes) (acc : bytes) : bytes * bytes :=
 
 Definition res_err (o : option string) : bytes := match o with None => bs "ok" | Some e => str e end.
 
+(* ---- hex encoding of results ("-" for the empty string, as the Go harness writes it) ---- *)
+Definition hex_digit (n : N) : byte :=
+  match Byte.of_N (if (n <? 10)%N then 48 + n else 87 + n)%N with Some b => b | None => x3f end.
+Definition hx (s : bytes) : bytes :=
+  match s with
+  | [] => bs "-"
+  | _ => flat_map (fun b => [hex_digit (bN b / 16); hex_digit (bN b mod 16)]) s
+  end.
+
+Fixpoint join_colon (l : list bytes) : bytes :=
+  match l with
+  | [] => []
+  | [x] => x
+  | x :: t => x ++ x3a :: join_colon t
+  end.
+
+Fixpoint find_tag_from (i : nat) (name : string) (l : list tagdesc) : option (nat * tagdesc) :=
+  match l with
+  | [] => None
+  | d :: t => if String.eqb name (t_name d) then Some (i, d) else find_tag_from (S i) name t
+  end.
+Definition find_tag (name : bytes) : option (nat * tagdesc) := find_tag_from 0 (string_of_list_byte name) tags.
+
+Definition validate_progs : list stmt := map t_validate tags.
+
+Fixpoint set_tag (i : nat) (v : tagval) (l : list (option tagval)) : list (option tagval) :=
+  match i, l with
+  | O, _ :: t => Some v :: t
+  | S i', x :: t => x :: set_tag i' v t
+  | _, [] => []
+  end.
+
+Definition empty_tags : list (option tagval) := map (fun _ => None) tags.
+
+Definition verdict_str (v : verdict) : bytes :=
+  match v with
+  | Accept => bs "ok"
+  | Reject f e => bs "rej:" ++ str f ++ x3a :: str e
+  | Panic => bs "panic"
+  | Stuck => bs "stuck"
+  end.
+
+Definition tagval_str (v : tagval) : bytes := join_colon (hx (tv_marker v) :: map hx (tv_elems v)).
+
+Definition presult_str (r : presult) : bytes :=
+  match r with
+  | POk v => bs "ok:" ++ tagval_str v
+  | PErr f e => bs "err:" ++ str f ++ x3a :: str e
+  | PPanic => bs "panic"
+  | PStuck => bs "stuck"
+  end.
+
+(* name, marker, elements... -> (index, descriptor, value, remaining args) *)
+Definition take_tag (args : list bytes) : option (nat * tagdesc * tagval * list bytes) :=
+  match args with
+  | name :: marker :: rest =>
+      match find_tag name with
+      | Some (i, d) =>
+          let n := length (t_elems d) in
+          if n <=? length rest then Some (i, d, {| tv_marker := marker; tv_elems := firstn n rest |}, skipn n rest)
+          else None
+      | None => None
+      end
+  | _ => None
+  end.
+
+Definition opts_of (a : bytes) : option (bool * bool) :=
+  match a with
+  | [s; m] => Some (beqb s x31, beqb m x31)
+  | _ => None
+  end.
+
+Fixpoint take_tags (fuel : nat) (args : list bytes) (acc : list (option tagval)) : option (list (option tagval)) :=
+  match fuel with
+  | O => None
+  | S f =>
+      match args with
+      | [] => Some acc
+      | _ => match take_tag args with
+             | Some (i, _, v, rest) => take_tags f rest (set_tag i v acc)
+             | None => None
+             end
+      end
+  end.
+
+Definition decode_msg (args : list bytes) : option message :=
+  match args with
+  | o :: rest =>
+      match take_tags (S (length rest)) rest empty_tags with
+      | Some ts => Some {| m_tags := ts; m_opts := opts_of o |}
+      | None => None
+      end
+  | [] => None
+  end.
+
+Fixpoint join_comma (l : list bytes) : bytes :=
+  match l with
+  | [] => []
+  | [x] => x
+  | x :: t => x ++ x2c :: join_comma t
+  end.
+
+Definition run_tag (name : bytes) (args : list bytes) : bytes :=
+  if bytes_eqb name (bs "validate") then
+    match take_tag args with
+    | Some (i, d, v, _) =>
+        verdict_str (run_tag_validate validate_progs {| m_tags := set_tag i v empty_tags; m_opts := None |} i)
+    | None => bs "bad-args"
+    end
+  else if bytes_eqb name (bs "format") then
+    match args with
+    | var :: rest =>
+        match take_tag rest with
+        | Some (_, d, v, _) =>
+            match format_tag d (bytes_eqb var (bs "1")) v with
+            | Some o => bs "ok:" ++ hx o
+            | None => bs "stuck"
+            end
+        | None => bs "bad-args"
+        end
+    | [] => bs "bad-args"
+    end
+  else if bytes_eqb name (bs "parse") then
+    match args with
+    | [tn; rec] =>
+        match find_tag tn with
+        | Some (_, d) => presult_str (parse_tag d rec)
+        | None => bs "bad-args"
+        end
+    | _ => bs "bad-args"
+    end
+  else bs "unknown-function".
+
+Definition run_meta (name : bytes) (args : list bytes) : bytes :=
+  match find_tag (arg0 args) with
+  | None => bs "no-such-tag"
+  | Some (_, d) =>
+      if bytes_eqb name (bs "elems") then join_comma (map (fun e => str (e_path e)) (t_elems d))
+      else if bytes_eqb name (bs "marker") then t_marker d
+      else if bytes_eqb name (bs "hasformat") then (if t_format_takes_options d then bs "true" else bs "false")
+      else bs "unknown-function"
+  end.
+
+Definition run_msg (name : bytes) (args : list bytes) : bytes :=
+  match decode_msg args with
+  | None => bs "bad-args"
+  | Some m =>
+      if bytes_eqb name (bs "validate") then verdict_str (run_verify validate_progs verify_prog m)
+      else bs "unknown-function"
+  end.
+
 Definition run (fn : bytes) (args : list bytes) : bytes :=
   let '(kind, name) := split_colon fn [] in
   if bytes_eqb kind (bs "validator") then res_err (run_validator (string_of_list_byte name) args)
+  else if bytes_eqb kind (bs "tag") then run_tag name args
+  else if bytes_eqb kind (bs "meta") then run_meta name args
+  else if bytes_eqb kind (bs "msg") then run_msg name args
   else bs "unknown-function".
 
 (* ---- the property oracle: what the specification says the implementation's observation
         must be. None = the specification does not decide this observation. ---- *)
-Definition verdict_of (b : bool) : bytes := if b then bs "ok" else bs "reject".
+Definition okrej (b : bool) : bytes := if b then bs "ok" else bs "reject".
 
 Definition spec_validator (name : string) (args : list bytes) : option bool :=
   let s := arg0 args in
@@ -38,5 +193,9 @@ Definition spec_validator (name : string) (args : list bytes) : option bool :=
 
 Definition oracle (fn : bytes) (args : list bytes) : option bytes :=
   let '(kind, name) := split_colon fn [] in
-  if bytes_eqb kind (bs "validator") then option_map verdict_of (spec_validator (string_of_list_byte name) args)
+  if bytes_eqb kind (bs "validator") then option_map okrej (spec_validator (string_of_list_byte name) args)
   else None.
+
+(* stable names for the OCaml driver *)
+Definition byte_of_n : N -> option byte := Byte.of_N.
+Definition byte_to_n : byte -> N := Byte.to_N.
